@@ -489,7 +489,7 @@ pub fn formals_options() -> Vec<Option<Vec<(String, Option<String>)>>> {
     ]
 }
 
-pub const BODY_TOKENS: [&str; 13] = ["x", "y", "k", "1", "+", "``", "`\"", "\"x y\"", "`B", "`B(x)", "\\\n", "x``y", "`\\`\""];
+pub const BODY_TOKENS: [&str; 15] = ["é", "/", "x", "y", "k", "1", "+", "``", "`\"", "\"x y\"", "`B", "`B(x)", "\\\n", "x``y", "`\\`\""];
 
 pub fn usage_forms() -> Vec<Option<Vec<String>>> {
     let v = |a: &[&str]| Some(a.iter().map(|s| s.to_string()).collect::<Vec<_>>());
